@@ -100,7 +100,9 @@ const TFIELD: [&str; 4] = ["hour", "minute", "second", "nano"];
 
 /// the property's reading of "add `n` months" (n signed), independent of chrono
 fn ref_months(d: &NaiveDate, n: i128) -> Option<(i64, i64, i64)> {
-    let (y, m, dd) = ymd(d);
+    ref_months_ymd(ymd(d), n)
+}
+fn ref_months_ymd((y, m, dd): (i64, i64, i64), n: i128) -> Option<(i64, i64, i64)> {
     let total = y as i128 * 12 + (m as i128 - 1) + n;
     let ty = total.div_euclid(12);
     let tm = total.rem_euclid(12) as i64 + 1;
@@ -143,12 +145,61 @@ fn months_single(c: &mut Ctx, d: &NaiveDate, n: u32) {
     c.op(&format!("do.addm {y} {n}"), &show_r(&a));
     let s = months_eval(c, d, n, true);
     c.op(&format!("do.subm {y} {n}"), &show_r(&s));
+    // operator forms `NaiveDate + Months` / `- Months`: the value, or a panic exactly when the target year
+    // is out of range (judged against the reference calendar, not against the checked form)
+    for sub in [false, true] {
+        let r = guard(|| if sub { *d - Months::new(n) } else { *d + Months::new(n) });
+        c.op(&format!("dox.dm {} {y} {n}", DIR[sub as usize]), &show_d(&r));
+        let want = ref_months(d, if sub { -(n as i128) } else { n as i128 });
+        let name = if sub { "NaiveDate - Months" } else { "NaiveDate + Months" };
+        match (&r, want) {
+            (Ok(x), Some(w)) => {
+                if ymd(x) != w {
+                    c.fail(&format!("{name}: result is not the clamped day of the target month"), &format!("{} n={n} -> {} want {:?}", desc(d), desc(x), w));
+                }
+                c.count("months-op:date:value");
+            }
+            (Err(()), None) => c.count("months-op:date:panic-year-out-of-range"),
+            (Ok(x), None) => c.fail(&format!("{name}: yields a date although the target year is out of range"), &format!("{} n={n} -> {}", desc(d), desc(x))),
+            (Err(()), Some(w)) => c.fail(&format!("{name}: panics although the target month is in range"), &format!("{} n={n} want {:?}", desc(d), w)),
+        }
+    }
+    c.op(&format!("dox.months {n}"), &Months::new(n).as_u32().to_string());
+    if Months::new(n).as_u32() != n {
+        c.fail("Months::new / as_u32 do not carry the count unchanged", &format!("n={n}"));
+    }
+    // one month forward / back lands in Month::succ / Month::pred of the month, in a February of the right length
+    {
+        let mo = Month::try_from(d.month() as u8).unwrap();
+        for (sub, step) in [(false, mo.succ()), (true, mo.pred())] {
+            if let Ok(Some(x)) = guard(|| if sub { d.checked_sub_months(Months::new(1)) } else { d.checked_add_months(Months::new(1)) }) {
+                let len = step.num_days(x.year());
+                if x.month() != step.number_from_month() || len != Some(month_len(x.year() as i64, x.month() as i64) as u8) || x.day() > len.unwrap_or(0) as u32 {
+                    c.fail("one month away is not Month::succ / Month::pred with its calendar length", &format!("{} sub={sub} -> {}", desc(d), desc(&x)));
+                }
+                if step == Month::February {
+                    c.count(if len == Some(29) { "months:succ-pred:february-29" } else { "months:succ-pred:february-28" });
+                }
+            }
+        }
+    }
     // delegations: NaiveDateTime keeps the time, DateTime<Utc>/<FixedOffset> go through the local value
     let t = gen_time(c);
     let ndt = d.and_time(t);
     for (sub, r) in [(false, &a), (true, &s)] {
         let got = guard(|| if sub { ndt.checked_sub_months(Months::new(n)) } else { ndt.checked_add_months(Months::new(n)) });
         c.op(&format!("dto.nm {} {} {n}", DIR[sub as usize], enc_n(&ndt)), &show_on(&got));
+        // `NaiveDateTime ± Months`: the reference date with the time kept, a panic exactly when there is none
+        {
+            let gop = guard(|| if sub { ndt - Months::new(n) } else { ndt + Months::new(n) });
+            c.op(&format!("dox.nm {} {} {n}", DIR[sub as usize], enc_n(&ndt)), &match &gop { Ok(x) => enc_n(x), Err(()) => "panic".into() });
+            let want = ref_months(d, if sub { -(n as i128) } else { n as i128 });
+            match (&gop, want) {
+                (Ok(x), Some(w)) if ymd(&x.date()) == w && x.time() == t => c.count("months-op:naive:value"),
+                (Err(()), None) => c.count("months-op:naive:panic-year-out-of-range"),
+                _ => c.fail("NaiveDateTime +/- Months: not (the clamped day of the target month, time kept) / panic exactly when the target year is out of range", &format!("{ndt:?} n={n} sub={sub} -> {gop:?} want {want:?}")),
+            }
+        }
         let want = r.clone().map(|o| o.map(|x| x.and_time(t)));
         if got != want {
             c.fail("NaiveDateTime month stepping differs from stepping the date and keeping the time", &format!("{ndt:?} n={n} sub={sub}"));
@@ -157,18 +208,82 @@ fn months_single(c: &mut Ctx, d: &NaiveDate, n: u32) {
         if let Some(dt) = off.from_local_datetime(&ndt).single() {
             let got = guard(|| if sub { dt.checked_sub_months(Months::new(n)) } else { dt.checked_add_months(Months::new(n)) });
             c.op(&format!("dto.zm {} {} {n}", DIR[sub as usize], enc_z(&dt)), &show_oz(&got));
-            zoned_oracle(c, "month stepping", &format!("{dt:?} n={n} sub={sub}"), &dt, got, want.clone());
+            zoned_oracle(c, "month stepping", &format!("{dt:?} n={n} sub={sub}"), &dt, got.clone(), want.clone());
+            zoned_months_op(c, &dt, n, sub, &got);
         }
         if in_utc(&ndt) {
             let dt = ndt.and_utc();
             let got = guard(|| if sub { dt.checked_sub_months(Months::new(n)) } else { dt.checked_add_months(Months::new(n)) });
             c.op(&format!("dto.zm {} {} {n}", DIR[sub as usize], enc_z(&dt)), &show_oz(&got));
+            {
+                // `DateTime<Utc> ± Months`: the naive reference value, a panic exactly when there is none
+                let gop = guard(|| if sub { dt - Months::new(n) } else { dt + Months::new(n) });
+                c.op(&format!("dox.zm {} {} {n}", DIR[sub as usize], enc_z(&dt)), &match &gop { Ok(x) => enc_z(x), Err(()) => "panic".into() });
+                match (&gop, &want) {
+                    (Ok(x), Ok(Some(w))) if x.naive_utc() == *w => c.count("months-op:utc:value"),
+                    (Err(()), Ok(None)) => c.count("months-op:utc:panic"),
+                    _ => c.fail("DateTime<Utc> +/- Months: not the naive value / a panic exactly when there is none", &format!("{dt:?} n={n} sub={sub} -> {gop:?}")),
+                }
+            }
             match (got, &want) {
                 (Ok(g), Ok(w)) if g.map(|x| x.naive_utc()) == *w => c.count("deleg:utc-ok"),
                 _ => c.fail("DateTime<Utc> month stepping differs from the naive value", &format!("{dt:?} n={n} sub={sub}")),
             }
         }
     }
+}
+/// `DateTime<FixedOffset> ± Months`: correspondence, and the oracle "the checked result, a panic exactly on
+/// None" plus, independently of the checked form, "a value has the same offset and the reference wall clock"
+fn zoned_months_op(c: &mut Ctx, dt: &DateTime<FixedOffset>, n: u32, sub: bool, checked: &Result<Option<DateTime<FixedOffset>>, ()>) {
+    let gop = guard(|| if sub { *dt - Months::new(n) } else { *dt + Months::new(n) });
+    c.op(&format!("dox.zm {} {} {n}", DIR[sub as usize], enc_z(dt)), &match &gop { Ok(x) => enc_z(x), Err(()) => "panic".into() });
+    let detail = format!("{dt:?} n={n} sub={sub} -> {gop:?}");
+    match (&gop, checked) {
+        (Ok(x), Ok(Some(w))) if x == w && x.offset() == w.offset() => c.count("months-op:zoned:value"),
+        (Err(()), Ok(None)) => c.count("months-op:zoned:panic"),
+        _ => c.fail("DateTime +/- Months: not the checked result / a panic exactly when the checked form is None", &detail),
+    }
+    if let Ok(x) = &gop {
+        if x.offset() != dt.offset() {
+            c.fail("DateTime +/- Months changed the offset", &detail);
+        }
+        if n == 0 && (x != dt) {
+            c.fail("DateTime +/- Months(0) is not the value itself", &detail);
+        }
+    }
+    // reference wall clocks, computed from the UTC readings' day numbers and the offset, so that wall clocks
+    // in the day before MIN / after MAX (not NaiveDateTimes) are judged too
+    if n > 0 {
+        let (wy, wm, wd, sod) = wall_ymd(dt);
+        let want = ref_months_ymd((wy, wm, wd), if sub { -(n as i128) } else { n as i128 });
+        // the instant of the stepped wall clock must be representable (its date in NaiveDate::MIN..=MAX)
+        let want = want.filter(|w| {
+            let inst = day_num(w.0, w.1, w.2) * 86400 + sod - dt.offset().local_minus_utc() as i64;
+            inst >= min_dn() * 86400 && inst <= max_dn() * 86400 + 86399
+        });
+        let headroom = { let n0 = day_num(wy, wm, wd); n0 < min_dn() || n0 > max_dn() };
+        match (&gop, want) {
+            (Ok(x), Some(w)) => {
+                let (xy, xm, xd, xsod) = wall_ymd(x);
+                if (xy, xm, xd) != w || xsod != sod || x.nanosecond() != dt.nanosecond() {
+                    c.fail("DateTime +/- Months: the wall clock of the result is not the clamped day of the target month with the time of day kept", &format!("{detail} want {w:?}"));
+                }
+                c.count(if headroom { "months-op:zoned:headroom-wall-clock:value" } else { "months-op:zoned:wall-clock-ok" });
+            }
+            (Err(()), None) => c.count(if headroom { "months-op:zoned:headroom-wall-clock:panic" } else { "months-op:zoned:wall-clock-none" }),
+            (Ok(x), None) => c.fail("DateTime +/- Months: yields a value although the target month is out of range or its instant not representable", &format!("{detail} -> {x:?}")),
+            (Err(()), Some(w)) => c.fail("DateTime +/- Months: panics although the stepped wall clock is representable", &format!("{detail} want {w:?}")),
+        }
+    }
+}
+/// (year, month, day, second of day) of the wall clock of a zone-aware value, from the day number of its UTC
+/// reading (independent closed form) and its offset — defined also in the day before MIN / after MAX
+fn wall_ymd(z: &DateTime<FixedOffset>) -> (i64, i64, i64, i64) {
+    let u = z.naive_utc();
+    let wall = dn(&u.date()) * 86400 + u.time().num_seconds_from_midnight() as i64 + z.offset().local_minus_utc() as i64;
+    let day = wall.div_euclid(86400);
+    let (y, m) = ym_of_day_num(day);
+    (y, m, day - day_num(y, m, 1) + 1, wall.rem_euclid(86400))
 }
 fn in_utc(x: &NaiveDateTime) -> bool {
     *x >= DateTime::<Utc>::MIN_UTC.naive_utc() && *x <= DateTime::<Utc>::MAX_UTC.naive_utc()
@@ -463,6 +578,55 @@ fn misc_single(c: &mut Ctx, d: &NaiveDate) {
     let ns = match m.2 { Ok(n) => n.to_string(), Err(()) => "panic".into() };
     c.op(&format!("do.misc {}", yof(d)), &format!("{qs} {ces} {ns}"));
     c.count(&format!("misc:quarter-{}", qs));
+    let t = gen_time(c);
+    naive_misc(c, &d.and_time(t));
+}
+/// (year, month) of a day number, by search on the independent closed form `day_num`
+fn ym_of_day_num(n: i64) -> (i64, i64) {
+    let mut y = n.div_euclid(366) + 1;
+    while day_num(y + 1, 1, 1) <= n {
+        y += 1;
+    }
+    while day_num(y, 1, 1) > n {
+        y -= 1;
+    }
+    let mut m = 1;
+    while m < 12 && day_num(y, m + 1, 1) <= n {
+        m += 1;
+    }
+    (y, m)
+}
+fn show_misc(m: &Misc) -> String {
+    let qs = match m.0 { Ok(q) => q.to_string(), Err(()) => "panic".into() };
+    let ces = match m.1 { Ok((b, y)) => format!("{} {}", b01(b), y), Err(()) => "panic".into() };
+    let ns = match m.2 { Ok(n) => n.to_string(), Err(()) => "panic".into() };
+    format!("{qs} {ces} {ns}")
+}
+fn judge_misc(c: &mut Ctx, what: &str, detail: &str, m: &Misc, y: i64, mo: i64) {
+    let want_ce = if y >= 1 { (true, y as u32) } else { (false, (1 - y) as u32) };
+    if m.0 != Ok(((mo + 2) / 3) as u32) || m.1 != Ok(want_ce) || m.2 != Ok(month_len(y, mo) as u8) {
+        c.fail(&format!("{what}: quarter / year_ce / num_days_in_month disagree with the calendar"), &format!("{detail} -> {} want year {y} month {mo}", show_misc(m)));
+    }
+}
+/// the inherited `Datelike` defaults on `NaiveDateTime`
+fn naive_misc(c: &mut Ctx, ndt: &NaiveDateTime) {
+    let m: Misc = (guard(|| ndt.quarter()), guard(|| ndt.year_ce()), guard(|| ndt.num_days_in_month()));
+    c.op(&format!("dox.nmisc {}", enc_n(ndt)), &show_misc(&m));
+    let (y, mo, _) = ymd(&ndt.date());
+    judge_misc(c, "NaiveDateTime", &format!("{ndt:?}"), &m, y, mo);
+    c.count("misc:naive-datetime");
+}
+/// … and on `DateTime<FixedOffset>`: they read the wall clock, which may lie in the day before MIN / after
+/// MAX; the reference wall clock is computed from the UTC reading's day number and the offset
+fn zoned_misc(c: &mut Ctx, z: &DateTime<FixedOffset>) {
+    let m: Misc = (guard(|| z.quarter()), guard(|| z.year_ce()), guard(|| z.num_days_in_month()));
+    c.op(&format!("dox.zmisc {}", enc_z(z)), &show_misc(&m));
+    let u = z.naive_utc();
+    let wall = dn(&u.date()) * 86400 + u.time().num_seconds_from_midnight() as i64 + z.offset().local_minus_utc() as i64;
+    let wall_day = wall.div_euclid(86400);
+    let (y, mo) = ym_of_day_num(wall_day);
+    judge_misc(c, "DateTime<FixedOffset>", &format!("{z:?}"), &m, y, mo);
+    c.count(if wall_day < min_dn() || wall_day > max_dn() { "misc:zoned:headroom-wall-clock" } else { "misc:zoned" });
 }
 fn month_num_days(c: &mut Ctx, m0: u32, year: i32) {
     let mo = Month::try_from((m0 + 1) as u8).unwrap();
@@ -489,6 +653,13 @@ fn month_num_days(c: &mut Ctx, m0: u32, year: i32) {
 fn nth_single(c: &mut Ctx, y: i32, m: u32, wd: usize, n: u8) {
     let r = guard(|| NaiveDate::from_weekday_of_month_opt(y, m, WD[wd], n));
     c.op(&format!("do.nth {y} {m} {wd} {n}"), &show_r(&r));
+    // the deprecated panicking alias: the same date, a panic exactly on None
+    #[allow(deprecated)]
+    let rp = guard(|| NaiveDate::from_weekday_of_month(y, m, WD[wd], n));
+    c.op(&format!("dox.nthp {y} {m} {wd} {n}"), &show_d(&rp));
+    if rp.clone().ok() != r.clone().ok().flatten() || r.is_err() {
+        c.fail("from_weekday_of_month: not the value of from_weekday_of_month_opt / a panic exactly on None", &format!("{y} {m} wd={wd} n={n}"));
+    }
     // reference: walk the month and count occurrences of the weekday
     let mut want: Option<(i64, i64, i64)> = None;
     if n >= 1 && in_range(y as i64) && (1..=12).contains(&m) {
@@ -750,6 +921,27 @@ fn time_fields(c: &mut Ctx) {
         }
         Err(()) => c.fail(&format!("NaiveTime::{name}: panicked"), &format!("{t:?} v={v}")),
     }
+    // the constructors' view: on a constructor-built time the result IS from_hms_nano_opt of the new fields,
+    // except that a leap representation may be carried off second :59 (with_second) or put on another second
+    // (with_nanosecond) — the documented "leap second on any second"; exactly those cases are counted apart
+    let strict = n < 1_000_000_000 || s == 59;
+    if strict {
+        let ctor = guard(|| NaiveTime::from_hms_nano_opt(want[0], want[1], want[2], want[3]));
+        match (&r, &ctor) {
+            (Ok(a), Ok(b)) if a == b => c.count("time:ctor-view:agrees"),
+            (Ok(Some(x)), Ok(None)) => {
+                let deviation = (field == 2 && n >= 1_000_000_000 && v < 59) || (field == 3 && (1_000_000_000..2_000_000_000).contains(&v) && s != 59);
+                if !deviation {
+                    c.fail(&format!("NaiveTime::{name}: returns a time the constructor refuses, outside the documented leap-on-any-second cases"), &format!("{t:?} v={v} -> {x:?}"));
+                }
+                c.count(&format!("time:off59:{name} returns a leap representation off second :59 (from_hms_nano_opt refuses these fields)"));
+                if x.nanosecond() < 1_000_000_000 || x.second() == 59 {
+                    c.fail(&format!("NaiveTime::{name}: deviation case does not carry a leap representation off :59"), &format!("{t:?} v={v} -> {x:?}"));
+                }
+            }
+            _ => c.fail(&format!("NaiveTime::{name}: differs from from_hms_nano_opt on the new fields"), &format!("{t:?} v={v} -> {r:?}, constructor {ctor:?}")),
+        }
+    }
     // NaiveDateTime and DateTime<Utc> delegate to the time and keep the date
     let d = gen_date8(c);
     let ndt = d.and_time(t);
@@ -868,6 +1060,7 @@ fn zoned_case(c: &mut Ctx, z: &DateTime<FixedOffset>, kind: usize, arg: i64) {
             let sub = kind == 1;
             let got = guard(|| if sub { z.checked_sub_months(Months::new(v)) } else { z.checked_add_months(Months::new(v)) });
             let want = local.clone().ok().map(|l| guard(|| if sub { l.checked_sub_months(Months::new(v)) } else { l.checked_add_months(Months::new(v)) }));
+            zoned_months_op(c, z, v, sub, &got);
             (format!("dto.zm {} {} {v}", DIR[sub as usize], enc_z(z)), got, want)
         }
         2 => {
@@ -923,9 +1116,66 @@ fn zoned_case(c: &mut Ctx, z: &DateTime<FixedOffset>, kind: usize, arg: i64) {
             c.fail("zone-aware field replacement returned a value outside MIN_UTC..=MAX_UTC", &line);
         }
     }
+    if kind >= 2 {
+        zoned_field_ref_oracle(c, z, kind, arg, &got, &line);
+    }
     match want {
         Some(w) => zoned_oracle(c, "operation at a range end / sub-minute offset", &line, z, got, w),
         None => c.count("zoned:headroom-wall-clock"),
+    }
+}
+/// Independent judgement of a field replacement on a zone-aware value (kinds 2..=12 of `zoned_case`), also
+/// when the wall clock lies in the day before MIN / after MAX: the wall clock is computed from the UTC
+/// reading's day number and the offset, the field is replaced on it by reference arithmetic, and the result
+/// must be exactly that wall clock at the same offset if it exists and its instant lies in MIN_UTC..=MAX_UTC,
+/// nothing otherwise.
+fn zoned_field_ref_oracle(c: &mut Ctx, z: &DateTime<FixedOffset>, kind: usize, arg: i64, got: &Result<Option<DateTime<FixedOffset>>, ()>, line: &str) {
+    let (y, m, d, sod) = wall_ymd(z);
+    let nano = z.naive_utc().time().nanosecond() as i64;
+    let v = arg as u32 as i64;
+    let one = v + ((kind == 4 || kind == 6 || kind == 8) as i64);
+    let target: Option<(i64, i64, i64, i64, i64)> = match kind {
+        2 => {
+            if arg == y { Some((y, m, d, sod, nano)) } else if in_range(arg) && d <= month_len(arg, m) { Some((arg, m, d, sod, nano)) } else { None }
+        }
+        3 | 4 => if (1..=12).contains(&one) && d <= month_len(y, one) { Some((y, one, d, sod, nano)) } else { None },
+        5 | 6 => if one >= 1 && one <= month_len(y, m) { Some((y, m, one, sod, nano)) } else { None },
+        7 | 8 => {
+            if one >= 1 && one <= 365 + is_leap(y) as i64 {
+                let (mut mm, mut rest) = (1, one);
+                while rest > month_len(y, mm) {
+                    rest -= month_len(y, mm);
+                    mm += 1;
+                }
+                Some((y, mm, rest, sod, nano))
+            } else {
+                None
+            }
+        }
+        9 => if v < 24 { Some((y, m, d, v * 3600 + sod % 3600, nano)) } else { None },
+        10 => if v < 60 { Some((y, m, d, sod / 3600 * 3600 + v * 60 + sod % 60, nano)) } else { None },
+        11 => if v < 60 { Some((y, m, d, sod / 60 * 60 + v, nano)) } else { None },
+        _ => if v < 2_000_000_000 { Some((y, m, d, sod, v)) } else { None },
+    };
+    // MIN_UTC ..= MAX_UTC on the instant of the new wall clock
+    let want = target.filter(|w| {
+        let inst = day_num(w.0, w.1, w.2) * 86400 + w.3 - z.offset().local_minus_utc() as i64;
+        let last = max_dn() * 86400 + 86399;
+        inst >= min_dn() * 86400 && (inst < last || (inst == last && w.4 < 1_000_000_000))
+    });
+    let headroom = { let n0 = day_num(y, m, d); n0 < min_dn() || n0 > max_dn() };
+    match (got, want) {
+        (Ok(Some(g)), Some(w)) => {
+            let (gy, gm, gd, gsod) = wall_ymd(g);
+            if (gy, gm, gd, gsod, g.naive_utc().time().nanosecond() as i64) != w || g.offset() != z.offset() {
+                c.fail("zone-aware field replacement: the result's wall clock is not the wall clock with that field replaced and the others kept", &format!("{line} want {w:?}"));
+            }
+            c.count(if headroom { "zoned-ref:headroom-wall-clock:some" } else { "zoned-ref:some" });
+        }
+        (Ok(None), None) => c.count(if headroom { "zoned-ref:headroom-wall-clock:none" } else { "zoned-ref:none" }),
+        (Ok(Some(g)), None) => c.fail("zone-aware field replacement: yields a value although no such wall clock exists or its instant is outside MIN_UTC..=MAX_UTC", &format!("{line} -> {g:?}")),
+        (Ok(None), Some(w)) => c.fail("zone-aware field replacement: fails although the wall clock exists and its instant is in range", &format!("{line} want {w:?}")),
+        (Err(()), _) => c.fail("zone-aware field replacement: panicked", line),
     }
 }
 
@@ -953,6 +1203,7 @@ fn zoned_ops(c: &mut Ctx) {
         }
     };
     zoned_case(c, &z, kind, arg);
+    zoned_misc(c, &z);
     // time(): the time of day of the wall clock
     let tm = guard(|| z.time());
     c.op(&format!("dto.zt {}", enc_z(&z)), &match &tm { Ok(t) => enc_t(t), Err(()) => "panic".into() });
@@ -980,6 +1231,7 @@ fn zoned_edges(c: &mut Ctx) {
         }
     }
     for z in vals.iter() {
+        zoned_misc(c, z);
         for n in [0i64, 1, 12, 13, u32::MAX as i64] {
             zoned_case(c, z, 0, n);
             zoned_case(c, z, 1, n);
